@@ -454,7 +454,7 @@ def Iter.nextPinned (it : Iter) (m : Mem) : Iter × Option Triple :=
     else ({ it with pending := r }, none)
 
 inductive Ev
-  | mutate (op : Op)
+  | mutate (op : StOp)
   | load (ts : List Triple)
   | next
   deriving Repr
@@ -462,7 +462,7 @@ inductive Ev
 /-- yields of a schedule, each with the store states since the generator began (latest first) -/
 def yields (hist : List Mem) (m : Mem) (it : Iter) : List Ev → List (Triple × List Mem)
   | [] => []
-  | .mutate op :: es => yields (m.step op :: hist) (m.step op) it es
+  | .mutate op :: es => yields (m.stStep op :: hist) (m.stStep op) it es
   | .load ts :: es => yields hist m (it.load m ts) es
   | .next :: es =>
     match (it.next m).2 with
@@ -472,13 +472,13 @@ def yields (hist : List Mem) (m : Mem) (it : Iter) : List Ev → List (Triple ×
 /-- some step of the schedule raised -/
 def schedRaises (m : Mem) (it : Iter) : List Ev → Bool
   | [] => false
-  | .mutate op :: es => (m.step op).err || schedRaises (m.step op) it es
+  | .mutate op :: es => (m.stStep op).err || schedRaises (m.stStep op) it es
   | .load ts :: es => schedRaises m (it.load m ts) es
   | .next :: es => it.nextRaises m || schedRaises m (it.next m).1 es
 
 def yieldsPinned (hist : List Mem) (m : Mem) (it : Iter) : List Ev → List (Triple × List Mem)
   | [] => []
-  | .mutate op :: es => yieldsPinned (m.step op :: hist) (m.step op) it es
+  | .mutate op :: es => yieldsPinned (m.stStep op :: hist) (m.stStep op) it es
   | .load ts :: es => yieldsPinned hist m (it.load m ts) es
   | .next :: es =>
     match (it.nextPinned m).2 with
